@@ -17,6 +17,9 @@ static int op_x25519(int argc, char **argv, FILE *o) {
     if (nb(argc, argv, b, NB)) return -1; NEED(0, 32) NEED(1, 32)
     rc = crypto_scalarmult_curve25519(q, b[0].p, b[1].p);
     { unsigned char q2[32]; int rc2 = crypto_scalarmult(q2, b[0].p, b[1].p); if (rc2 != rc || (rc == 0 && memcmp(q, q2, 32))) fputs("DEFAULT-DIFFERS ", o); }
+    { unsigned char a0[32], a1[32]; int r0, r1; memcpy(a0, b[0].p, 32); r0 = crypto_scalarmult_curve25519(a0, a0, b[1].p); memcpy(a1, b[1].p, 32); r1 = crypto_scalarmult_curve25519(a1, b[0].p, a1);
+      if (r0 != rc || (rc == 0 && memcmp(a0, q, 32))) fputs("INPLACE-N-DIFFERS ", o);
+      if (r1 != rc || (rc == 0 && memcmp(a1, q, 32))) fputs("INPLACE-P-DIFFERS ", o); }
     rc_hex(o, rc, q, 32); fb(b, NB); return 0;
 }
 static int op_x25519_base(int argc, char **argv, FILE *o) {
@@ -159,17 +162,30 @@ static int op_sk_to_curve(int argc, char **argv, FILE *o) {
 /* ---------- C07 */
 #define UNARY_PT(NAME, FN, INLEN) static int NAME(int argc, char **argv, FILE *o) { enum { NB = 1 }; buf_t b[NB]; unsigned char q[32]; int rc; \
     if (nb(argc, argv, b, NB)) return -1; NEED(0, INLEN) rc = FN(q, b[0].p); rc_hex(o, rc, q, 32); fb(b, NB); return 0; }
-#define BIN_PT(NAME, FN) static int NAME(int argc, char **argv, FILE *o) { enum { NB = 2 }; buf_t b[NB]; unsigned char q[32]; int rc; \
-    if (nb(argc, argv, b, NB)) return -1; NEED(0, 32) NEED(1, 32) rc = FN(q, b[0].p, b[1].p); rc_hex(o, rc, q, 32); fb(b, NB); return 0; }
+/* every two-operand point / scalar function is also called in place (output aliasing the first, then the second operand);
+   the answer must not depend on the placement (C13) nor, through it, on the backend (C10) */
+#define BIN_PT(NAME, FN) static int NAME(int argc, char **argv, FILE *o) { enum { NB = 2 }; buf_t b[NB]; unsigned char q[32], a0[32], a1[32]; int rc, r0, r1; \
+    if (nb(argc, argv, b, NB)) return -1; NEED(0, 32) NEED(1, 32) rc = FN(q, b[0].p, b[1].p); \
+    memcpy(a0, b[0].p, 32); r0 = FN(a0, a0, b[1].p); memcpy(a1, b[1].p, 32); r1 = FN(a1, b[0].p, a1); \
+    if (r0 != rc || (rc == 0 && memcmp(a0, q, 32))) fputs("INPLACE-ARG1-DIFFERS ", o); \
+    if (r1 != rc || (rc == 0 && memcmp(a1, q, 32))) fputs("INPLACE-ARG2-DIFFERS ", o); \
+    rc_hex(o, rc, q, 32); fb(b, NB); return 0; }
 static int op_ed_valid(int argc, char **argv, FILE *o) { enum { NB = 1 }; buf_t b[NB]; if (nb(argc, argv, b, NB)) return -1; NEED(0, 32) fprintf(o, "%d", crypto_core_ed25519_is_valid_point(b[0].p)); fb(b, NB); return 0; }
 static int op_ri_valid(int argc, char **argv, FILE *o) { enum { NB = 1 }; buf_t b[NB]; if (nb(argc, argv, b, NB)) return -1; NEED(0, 32) fprintf(o, "%d", crypto_core_ristretto255_is_valid_point(b[0].p)); fb(b, NB); return 0; }
 BIN_PT(op_ed_add, crypto_core_ed25519_add)
 BIN_PT(op_ed_sub, crypto_core_ed25519_sub)
 BIN_PT(op_ri_add, crypto_core_ristretto255_add)
 BIN_PT(op_ri_sub, crypto_core_ristretto255_sub)
-BIN_PT(op_ed_sm, crypto_scalarmult_ed25519)
-BIN_PT(op_ed_sm_nc, crypto_scalarmult_ed25519_noclamp)
-BIN_PT(op_ri_sm, crypto_scalarmult_ristretto255)
+/* scalar multiplication: only the output aliasing the POINT is exercised (with the output aliasing the scalar the wrappers test the
+   clobbered scalar for zero afterwards: n = 0 returns 0 instead of -1 — same on every backend, and not an overlap the API documents) */
+#define BIN_SM(NAME, FN) static int NAME(int argc, char **argv, FILE *o) { enum { NB = 2 }; buf_t b[NB]; unsigned char q[32], a1[32]; int rc, r1; \
+    if (nb(argc, argv, b, NB)) return -1; NEED(0, 32) NEED(1, 32) rc = FN(q, b[0].p, b[1].p); \
+    memcpy(a1, b[1].p, 32); r1 = FN(a1, b[0].p, a1); \
+    if (r1 != rc || (rc == 0 && memcmp(a1, q, 32))) fputs("INPLACE-ARG2-DIFFERS ", o); \
+    rc_hex(o, rc, q, 32); fb(b, NB); return 0; }
+BIN_SM(op_ed_sm, crypto_scalarmult_ed25519)
+BIN_SM(op_ed_sm_nc, crypto_scalarmult_ed25519_noclamp)
+BIN_SM(op_ri_sm, crypto_scalarmult_ristretto255)
 UNARY_PT(op_ed_smb, crypto_scalarmult_ed25519_base, 32)
 UNARY_PT(op_ed_smb_nc, crypto_scalarmult_ed25519_base_noclamp, 32)
 UNARY_PT(op_ri_smb, crypto_scalarmult_ristretto255_base, 32)
